@@ -97,6 +97,7 @@ func g01Pipeline(repo string, w *Out) error {
 	if len(st) != len(wantF) {
 		return fmt.Errorf("NewForwardedModifier: %d statements, expected %d: %q", len(st), len(wantF), st)
 	}
+	var fillShapes []bool
 	for i := range st {
 		if i == 6 {
 			switch st[i] {
@@ -110,10 +111,29 @@ func g01Pipeline(repo string, w *Out) error {
 			}
 			continue
 		}
+		if i >= 1 && i <= 3 {
+			// fill-in test: first field line (Header.Get) or all field lines (strings.Join(Header.Values, ""))
+			alt := strings.Replace(wantF[i], `v := req.Header.Get(`, `v := strings.Join(req.Header.Values(`, 1)
+			alt = strings.Replace(alt, `"); v == ""`, `"), ""); v == ""`, 1)
+			switch st[i] {
+			case wantF[i]:
+				fillShapes = append(fillShapes, false)
+			case alt:
+				fillShapes = append(fillShapes, true)
+			default:
+				return fmt.Errorf("NewForwardedModifier: statement %d is %q, expected %q or %q", i, st[i], wantF[i], alt)
+			}
+			continue
+		}
 		if st[i] != wantF[i] {
 			return fmt.Errorf("NewForwardedModifier: statement %d is %q, expected %q", i, st[i], wantF[i])
 		}
 	}
+
+	if len(fillShapes) != 3 || fillShapes[0] != fillShapes[1] || fillShapes[1] != fillShapes[2] {
+		return fmt.Errorf("NewForwardedModifier: the three fill-in tests do not have the same shape: %v", fillShapes)
+	}
+	w.DefBool("xfwd_fill_reads_all_lines", fillShapes[0])
 
 	// ---- bad framing
 	fr, err := Parse(repo, "internal/martian/header/framing_modifier.go")
